@@ -204,4 +204,45 @@ def plan_C12(res, binary, hooked, tier, seed):
     return ("per (entry point, input): fault-free call counts, then every fault position k for sink writes (Err and Ok(0)), flushes and source calls, plus short-write patterns; distinct = distinct (api, input, script)"), [
         "TLC 1.8; IoFaults.tla", "harness sink/source wrappers (compare every offered buffer with the fault-free output, which for decoders is cross-checked against the specification's output)"]
 
-PLANS = {"C01": plan_C01, "C05": plan_C05, "C08": plan_C08, "C09": plan_C09, "C10": plan_C10, "C15": plan_C15, "C16": plan_C16, "C03": plan_C03, "C06": plan_C06, "C18": plan_C18, "C02": plan_C02, "C17": plan_C17, "C12": plan_C12}
+def reader_models(res, tier, tag):
+    mc = run_tlc("MC_Reader", "MC_Reader.cfg", "%s_rd" % tag, workers=8, timeout=600)
+    res.add_tlc(mc, "BufRead source with arbitrary fill_buf fragments under the decoders' helper loops (Take + zero-padding scan, read_exact runs, is_eof): FragIndependent (verdict and bytes consumed are a function of the bytes), Protocol, Terminates")
+
+def plan_C13(res, binary, hooked, tier, seed):
+    reader_models(res, tier, "C13")
+    trace = os.path.join(WORK, "trace_C13.ndjson")
+    rep = run_harness(binary, ["reader", "--mode", "c13", "--property", "C13", "--seed", seed, "--inputs", tq(tier, 10, 120), "--trace", trace], "C13_rd")
+    res.add_harness(rep, "valid, truncated, bit-flipped and zero-padded inputs of all three formats through Cursor, scripted sources (1-byte, 2-byte, mixed, random fragments) and BufReader capacities 1,2,3,7,64,random; verdict / output / consumed compared with the all-at-once run", counts_as_traces=False)
+    ok, info = validate_trace("Trace_Reader", "Trace_Reader.cfg", trace, "C13_trace", timeout=tq(tier, 900, 7200))
+    res.add_tlc(info, "trace validation of the BufRead protocol log (fill/consume/read) of the scripted source")
+    if ok:
+        res.traces += rep["evaluations"]
+    else:
+        res.violations.append({"property": "C13", "desc": "the decoders' use of the BufRead source violates the protocol of Trace_Reader.tla (consume beyond what fill_buf exposed / position mismatch): %s" % (info.get("reject") or "")[:400], "case": {"kind": "tlc-trace", "trace_file": trace}})
+    return ("inputs x reader kinds; distinct = distinct (bytes, format, reader, fragment pattern)"), ["TLC 1.8; Reader.tla", "the all-at-once run of lzma-rs itself is the reference, as the property states"]
+
+def plan_C11(res, binary, hooked, tier, seed):
+    reader_models(res, tier, "C11")
+    rep = run_harness(binary, ["reader", "--mode", "c11", "--property", "C11", "--seed", seed, "--inputs", tq(tier, 24, 300)], "C11_rd")
+    res.add_harness(rep, "size-bounded LZMA payloads (13- and 5-byte headers) and LZMA2 streams followed by 0/1/5/64 arbitrary bytes, read through slice, Cursor, scripted sources and BufReader(1/5/4096): must succeed with unchanged output and leave the reader exactly at the end of the payload (position predicted by the reference decoder's lock-step count); marker-terminated LZMA and XZ with trailing bytes must fail")
+    lzma_layer(res, binary, hooked, tier, seed, "C11", [])
+    lzma2_layer(res, binary, hooked, tier, seed, "C11", tq(tier, 20, 400))
+    return ("payloads x trailing bytes x reader kinds, plus every successful behaviour of MC_LzmaDecoder / MC_Lzma2 replayed with the consumed-bytes comparison switched on; distinct = distinct (bytes, reader)"), TRUSTED_L2 + ["Reader.tla for the helper loops; the byte position of the end of a payload comes from the harness range coder kernel (decoder consumption = 5 + number of normalisations = encoder emission), which is arithmetic and outside TLA+ (DESIGN.md section 8)"]
+
+def plan_C14(res, binary, hooked, tier, seed):
+    mc = run_tlc("MC_RawReuse", "MC_RawReuse.cfg", "C14_mc", workers=8, timeout=600, coverage=False)
+    res.add_tlc(mc, "all histories of decompress (leaving any used state) / reset(keep | size) up to 4 operations on both raw decoders: ResetIsFresh")
+    trace = os.path.join(WORK, "trace_C14.ndjson")
+    rep = run_harness(binary, ["reuse", "--property", "C14", "--seed", seed, "--histories", tq(tier, 80, 2000), "--trace", trace], "C14_ru")
+    res.add_harness(rep, "seeded histories on real LzmaDecoder / Lzma2Decoder objects (valid, corrupt, truncated, property-changing and state-leaning streams; reset(None), reset(Some(None)), reset(Some(Some(n)))): after every reset the next decompress is also run on a new object and must agree", counts_as_traces=False)
+    if hooked and os.path.exists(trace):
+        ok, info = validate_trace("Trace_RawReuse", "Trace_RawReuse.cfg", trace, "C14_trace", timeout=tq(tier, 600, 3600))
+        res.add_tlc(info, "trace validation of the projection logged after every call (after reset it must equal Fresh)")
+        if ok:
+            res.traces += rep["evaluations"]
+        else:
+            res.drift.append({"desc": "Trace_RawReuse rejected the recorded projection: %s" % (info.get("reject") or info.get("error") or "")[:500]})
+    return ("operation histories x stream pool; an evaluation = one decompress-after-reset compared with a new decoder; distinct = distinct histories"), [
+        "TLC 1.8; RawReuse.tla", "the freshly constructed decoder of lzma-rs is the oracle, as the property states; the projection hook (cfg lzma_rs_verif) only feeds the shape tier"]
+
+PLANS = {"C01": plan_C01, "C05": plan_C05, "C08": plan_C08, "C09": plan_C09, "C10": plan_C10, "C15": plan_C15, "C16": plan_C16, "C03": plan_C03, "C06": plan_C06, "C18": plan_C18, "C02": plan_C02, "C17": plan_C17, "C12": plan_C12, "C13": plan_C13, "C11": plan_C11, "C14": plan_C14}
